@@ -433,7 +433,20 @@ def expand(text, pages):
     import mwlib.parser.expander  # noqa
     from mwlib.parser.templ.evaluate import Expander
     from ..gen.db import SynthDB
-    return Expander(text, pagename="Page", wikidb=SynthDB(pages, "en")).expandTemplates()
+    from . import C03
+    C03.install_watermark()
+    C03._watermark["max"] = 0
+    e = Expander(text, pagename="Page", wikidb=SynthDB(pages, "en"))
+    _last_limit[0] = e.recursion_limit
+    return e.expandTemplates()
+
+
+_last_limit = [100]
+
+
+def recursion_limit_hit():
+    from . import C03
+    return C03._watermark["max"] > _last_limit[0]
 
 
 def check_program(R, page, templates, kinds):
@@ -454,6 +467,10 @@ def check_program(R, page, templates, kinds):
     R.case(h64(text, sorted(pages.items())), len(kinds) >= 2, sample={"text": text, "pages": pages, "expanded": got})
     if got != expected:
         kind = classify(page, templates, got, expected)
+        if recursion_limit_hit():
+            # the expander's nesting counter (one per nested flatten call, several per syntactic level) ran into its
+            # limit although the program is acyclic: the enclosing call is dropped
+            kind = "recursion-limit-reached-by-acyclic-program"
         R.violation("program:" + kind, "expanded %r, template semantics give %r" % (got, expected), case,
                     json.dumps({"got": got, "expected": expected}))
 
